@@ -133,11 +133,17 @@ Holds(name, t, q) ==
     [] name = "BetweenScaled" ->
          q.fin => Within(q.ve, Lo2(t.slo[K1(k)], t.slo[K1(k + 1)]),
                                Hi2(t.shi[K1(k)], t.shi[K1(k + 1)]))
-    [] name = "ClampFirst" -> q.fin => q.v = t.yk[1]
-    [] name = "ClampLast" -> q.fin => q.v = t.yk[n]
+    \* clamps are exact (rank equality) -- except within 128 ulp of the end knot, where log(E)
+    \* may still fall inside the log grid and the end bin's line is evaluated: knot bracket
+    [] name = "ClampFirst" ->
+         q.fin => (q.v = t.yk[1] \/ (Near(t, q, 0) /\ Within(q.v, t.ylo[1], t.yhi[1])))
+    [] name = "ClampLast" ->
+         q.fin => (q.v = t.yk[n] \/ (Near(t, q, n - 1) /\ Within(q.v, t.ylo[n], t.yhi[n])))
     [] name = "ScaledClampFirst" -> q.fin => Within(q.ve, t.slo[1], t.shi[1])
     [] name = "ScaledClampLast" -> q.fin => Within(q.ve, t.slo[n], t.shi[n])
-    [] name = "ExtrapRef" -> q.ref /\ (q.fin => Within(q.v, q.rlo, q.rhi))
+    [] name = "ExtrapRef" ->       \* (q.k is the end knot: 0 below, n-1 above)
+         q.ref /\ (q.fin => (Within(q.v, q.rlo, q.rhi)
+                             \/ (Near(t, q, k) /\ Within(q.v, t.ylo[K1(k)], t.yhi[K1(k)]))))
     [] name = "BelowFirst" -> q.fin => q.v <= t.yhi[1]
 
 \* ---- named deviation (counted by the trace spec, never hidden) ---------------------
